@@ -605,4 +605,262 @@ theorem encode_bytes_eq (d : Bytes) : Transl.Trellis.encode_bytes d = ofR id (Dm
   rw [this, encode_eq]; rfl
 
 
+
+/-! ### `bits_to_dibits`, `dibits_to_points`: loops over pairs -/
+
+theorem pairs_induct {α : Type} {P : List α → Prop} (h0 : P []) (h1 : ∀ x, P [x])
+    (h2 : ∀ a b r, P r → P (a :: b :: r)) : ∀ l, P l := by
+  intro l
+  have : P l ∧ ∀ x, P (x :: l) := by
+    induction l with
+    | nil => exact ⟨h0, h1⟩
+    | cons y t ih => exact ⟨ih.2 y, fun x => h2 x y t ih.1⟩
+  exact this.1
+
+/-- the index list `2k, 2k+2, …` (`m` items) of a `range(0, n, 2)` loop from pass `k` on -/
+def idxs2 (k m : Nat) : List Int := (List.range m).map (fun j => ((2 * (k + j) : Nat) : Int))
+
+theorem idxs2_succ (k m : Nat) : idxs2 k (m + 1) = ((2 * k : Nat) : Int) :: idxs2 (k + 1) m := by
+  unfold idxs2
+  rw [List.range_succ_eq_map, List.map_cons, List.map_map]
+  simp only [Nat.add_zero, List.cons.injEq, true_and]
+  apply List.map_congr_left
+  intro j _
+  simp only [Function.comp]; congr 2; omega
+
+theorem range3p_idxs2 (n : Nat) : range3p 0 (n : Int) 2 = idxs2 0 ((n + 1) / 2) := by
+  unfold range3p idxs2
+  have : (((n : Int) - 0 + ((2 : Nat) : Int) - 1) / ((2 : Nat) : Int)).toNat = (n + 1) / 2 := by omega
+  rw [this]
+  apply List.map_congr_left
+  intro j _
+  simp only [Int.ofNat_eq_natCast]; push_cast; omega
+
+theorem truncDiv2 (k : Nat) (h : 2 * k < 2 ^ 53) : PyArr.truncDiv ((2 * k : Nat) : Int) 2 = .ok (k : Int) := by
+  unfold PyArr.truncDiv
+  have : (0 : Int) ≤ ((2 * k : Nat) : Int) ∧ ((2 * k : Nat) : Int) < 2 ^ 53 := ⟨by omega, by exact_mod_cast h⟩
+  rw [if_pos this]
+  congr 1
+  omega
+
+theorem truncDiv_len2 (n : Nat) (h : n < 2 ^ 53) : PyArr.truncDiv (n : Int) 2 = .ok ((n / 2 : Nat) : Int) := by
+  unfold PyArr.truncDiv
+  have : (0 : Int) ≤ (n : Int) ∧ (n : Int) < 2 ^ 53 := ⟨by omega, by exact_mod_cast h⟩
+  rw [if_pos this]
+  congr 1
+
+theorem getBit_mid (A B : List Bool) (x : Bool) (k : Nat) (h : k = A.length) :
+    PyBits.getBit (A ++ x :: B) (k : Int) = .ok (ofBool x) := by
+  subst h
+  unfold PyBits.getBit
+  rw [getItem_ofNat]; simp
+
+theorem getBit_end (A : List Bool) (k : Nat) (h : A.length ≤ k) : PyBits.getBit A (k : Int) = .error .index := by
+  unfold PyBits.getBit
+  rw [getItem_ofNat, List.getElem?_eq_none h]; rfl
+
+theorem dibits_lookup : ∀ a b : Bool, TRELLIS34_DIBITS.lookup (ofBool a, ofBool b) = dibits.lookup (a, b) := by decide
+theorem dibits_range : ∀ a b : Bool, ∀ v, dibits.lookup (a, b) = some v → (-128 : Int) ≤ v ∧ v ≤ 127 := by decide
+
+def b2dBody (stream : List Bool) (i : Int) (out : List Int) : PyM (List Int) := do
+  let o ← PyArr.truncDiv i 2
+  PyArr.setArr (-128) 127 out (← PyArr.dictGet TRELLIS34_DIBITS ((← PyBits.getBit stream i), (← PyBits.getBit stream (i + 1)))) o
+
+theorem b2d_loop : ∀ (rest done : Bits) (A B : List Int) (k : Nat),
+    done.length = 2 * k → A.length = k → B.length = rest.length / 2 → (done ++ rest).length < 2 ^ 53 →
+    forEach (idxs2 k ((rest.length + 1) / 2)) (A ++ B) (b2dBody (done ++ rest))
+    = match bitsToDibits rest with
+      | .ok ds => .ok (A ++ ds)
+      | .error e => .error (errOf e) := by
+  intro rest
+  induction rest using pairs_induct with
+  | h0 =>
+    intro done A B k _ _ hB _
+    have : B = [] := List.eq_nil_of_length_eq_zero (by simpa using hB)
+    subst this
+    simp [idxs2, bitsToDibits]
+  | h1 x =>
+    intro done A B k hd hA hB hn
+    have hB' : B = [] := List.eq_nil_of_length_eq_zero (by simpa using hB)
+    subst hB'
+    have : (([x] : Bits).length + 1) / 2 = 0 + 1 := by simp
+    rw [this, idxs2_succ, forEach_cons]
+    have hb : b2dBody (done ++ [x]) ((2 * k : Nat) : Int) (A ++ []) = .error .index := by
+      unfold b2dBody
+      rw [truncDiv2 k (by simp at hn; omega)]
+      simp only [ok_bind]
+      rw [getBit_mid done [] x (2 * k) hd.symm]
+      simp only [ok_bind]
+      have e : ((2 * k : Nat) : Int) + 1 = ((2 * k + 1 : Nat) : Int) := by push_cast; rfl
+      rw [e, getBit_end _ _ (by simp; omega)]
+      rfl
+    rw [hb]; rfl
+  | h2 a b r ih =>
+    intro done A B k hd hA hB hn
+    obtain ⟨b0, B', rfl⟩ : ∃ b0 B', B = b0 :: B' := by
+      cases B with
+      | nil => simp at hB; omega
+      | cons b0 B' => exact ⟨b0, B', rfl⟩
+    have hc : ((a :: b :: r).length + 1) / 2 = (r.length + 1) / 2 + 1 := by simp only [List.length_cons]; omega
+    rw [hc, idxs2_succ, forEach_cons]
+    have hb : b2dBody (done ++ a :: b :: r) ((2 * k : Nat) : Int) (A ++ b0 :: B')
+        = match dibits.lookup (a, b) with
+          | some v => .ok (A ++ v :: B')
+          | none => .error (.other "KeyError") := by
+      unfold b2dBody
+      rw [truncDiv2 k (by simp at hn; omega)]
+      simp only [ok_bind]
+      rw [getBit_mid done (b :: r) a (2 * k) hd.symm]
+      simp only [ok_bind]
+      have e : ((2 * k : Nat) : Int) + 1 = ((2 * k + 1 : Nat) : Int) := by push_cast; rfl
+      have e2 : done ++ a :: b :: r = (done ++ [a]) ++ b :: r := by simp
+      rw [e, e2, getBit_mid (done ++ [a]) r b (2 * k + 1) (by simp; omega)]
+      simp only [ok_bind, PyArr.dictGet, dibits_lookup]
+      cases hl : dibits.lookup (a, b) with
+      | none => rfl
+      | some v =>
+        simp only [ok_bind, pure_eq_ok]
+        rw [← hA, setArr_mid (-128) 127 A B' b0 v (dibits_range a b v hl)]
+    rw [hb]
+    unfold bitsToDibits lookupR
+    cases hl : dibits.lookup (a, b) with
+    | none => rfl
+    | some v =>
+      simp only [ok_bind]
+      have := ih (done ++ [a, b]) (A ++ [v]) B' (k + 1) (by simp [hd]; omega) (by simp [hA])
+        (by simp only [List.length_cons] at hB; omega) (by simpa using hn)
+      simp only [List.append_assoc, List.cons_append, List.nil_append] at this
+      rw [this]
+      cases bitsToDibits r with
+      | error e => rfl
+      | ok ds => simp
+
+/-- `bits_to_dibits`, every bit string (shorter than 2^53 bits: `int(len / 2)` goes through a float): the model's
+`bitsToDibits` (`IndexError` for an odd length included) -/
+theorem bits_to_dibits_eq (s : Bits) (hs : s.length < 2 ^ 53) : bits_to_dibits s = ofR id (bitsToDibits s) := by
+  have h : bits_to_dibits s = (PyArr.truncDiv (len s) 2 >>= fun n =>
+      forEach (range3p 0 (len s) 2) (PyArr.zeros n) (b2dBody s)) := by
+    unfold bits_to_dibits b2dBody; rfl
+  rw [h, len_eq, truncDiv_len2 _ hs, ok_bind, range3p_idxs2]
+  have := b2d_loop s [] [] (PyArr.zeros ((s.length / 2 : Nat) : Int)) 0 rfl rfl (by simp [PyArr.zeros]; omega) (by simpa using hs)
+  simp only [List.nil_append] at this
+  rw [this]
+  cases bitsToDibits s with
+  | error e => rfl
+  | ok ds => simp [ofR]
+
+
+/-! `dibits_to_points` -/
+
+theorem const_table : TRELLIS34_CONSTELLATION_POINTS = constellation.map (fun e => (e.1, (e.2 : Int))) := by decide +kernel
+theorem const_range : ∀ e ∈ constellation, e.2 < 256 := by decide
+
+theorem lookup_mem' {κ ν : Type} [BEq κ] [LawfulBEq κ] (tbl : List (κ × ν)) (k : κ) (v : ν)
+    (h : tbl.lookup k = some v) : (k, v) ∈ tbl := by
+  induction tbl with
+  | nil => simp at h
+  | cons e t ih =>
+    obtain ⟨a, w⟩ := e
+    simp only [List.lookup_cons] at h
+    by_cases hp : (k == a) = true
+    · rw [hp] at h
+      have := eq_of_beq hp
+      subst this; cases h; simp
+    · have : (k == a) = false := by simpa using hp
+      rw [this] at h
+      exact List.mem_cons_of_mem _ (ih h)
+
+def d2pBody (d : List Int) (i : Int) (out : List Int) : PyM (List Int) := do
+  let o ← PyArr.truncDiv i 2
+  PyArr.setArr 0 255 out (← PyArr.dictGet TRELLIS34_CONSTELLATION_POINTS ((← getI d i), (← getI d (i + 1)))) o
+
+theorem getI_end (A : List Int) (k : Nat) (h : A.length ≤ k) : getI A (k : Int) = .error .index := by
+  rw [getI_ofNat, List.getElem?_eq_none h]
+
+theorem d2p_loop : ∀ (rest done : List Int) (A B : List Int) (k : Nat),
+    done.length = 2 * k → A.length = k → B.length = rest.length / 2 → (done ++ rest).length < 2 ^ 53 →
+    forEach (idxs2 k ((rest.length + 1) / 2)) (A ++ B) (d2pBody (done ++ rest))
+    = match dibitsToPoints rest with
+      | .ok ps => .ok (A ++ ps.map (fun x : Nat => (x : Int)))
+      | .error e => .error (errOf e) := by
+  intro rest
+  induction rest using pairs_induct with
+  | h0 =>
+    intro done A B k _ _ hB _
+    have : B = [] := List.eq_nil_of_length_eq_zero (by simpa using hB)
+    subst this
+    simp [idxs2, dibitsToPoints]
+  | h1 x =>
+    intro done A B k hd hA hB hn
+    have hB' : B = [] := List.eq_nil_of_length_eq_zero (by simpa using hB)
+    subst hB'
+    have : (([x] : List Int).length + 1) / 2 = 0 + 1 := by simp
+    rw [this, idxs2_succ, forEach_cons]
+    have hb : d2pBody (done ++ [x]) ((2 * k : Nat) : Int) (A ++ []) = .error .index := by
+      unfold d2pBody
+      rw [truncDiv2 k (by simp at hn; omega)]
+      simp only [ok_bind]
+      rw [getI_mid' done [] x (2 * k) hd.symm]
+      simp only [ok_bind]
+      have e : ((2 * k : Nat) : Int) + 1 = ((2 * k + 1 : Nat) : Int) := by push_cast; rfl
+      rw [e, getI_end _ _ (by simp; omega)]
+      rfl
+    rw [hb]; rfl
+  | h2 a b r ih =>
+    intro done A B k hd hA hB hn
+    obtain ⟨b0, B', rfl⟩ : ∃ b0 B', B = b0 :: B' := by
+      cases B with
+      | nil => simp at hB; omega
+      | cons b0 B' => exact ⟨b0, B', rfl⟩
+    have hc : ((a :: b :: r).length + 1) / 2 = (r.length + 1) / 2 + 1 := by simp only [List.length_cons]; omega
+    rw [hc, idxs2_succ, forEach_cons]
+    have hb : d2pBody (done ++ a :: b :: r) ((2 * k : Nat) : Int) (A ++ b0 :: B')
+        = match constellation.lookup (a, b) with
+          | some v => .ok (A ++ (v : Int) :: B')
+          | none => .error (.other "KeyError") := by
+      unfold d2pBody
+      rw [truncDiv2 k (by simp at hn; omega)]
+      simp only [ok_bind]
+      rw [getI_mid' done (b :: r) a (2 * k) hd.symm]
+      simp only [ok_bind]
+      have e : ((2 * k : Nat) : Int) + 1 = ((2 * k + 1 : Nat) : Int) := by push_cast; rfl
+      have e2 : done ++ a :: b :: r = (done ++ [a]) ++ b :: r := by simp
+      rw [e, e2, getI_mid' (done ++ [a]) r b (2 * k + 1) (by simp; omega)]
+      simp only [ok_bind, PyArr.dictGet, const_table, lookup_mapval (fun v : Nat => (v : Int))]
+      cases hl : constellation.lookup (a, b) with
+      | none => rfl
+      | some v =>
+        have hv : v < 256 := const_range _ (lookup_mem' _ _ _ hl)
+        simp only [Option.map_some, ok_bind, pure_eq_ok]
+        rw [← hA, setArr_mid 0 255 A B' b0 (v : Int) (by omega)]
+    rw [hb]
+    unfold dibitsToPoints lookupR
+    cases hl : constellation.lookup (a, b) with
+    | none => rfl
+    | some v =>
+      simp only [ok_bind]
+      have := ih (done ++ [a, b]) (A ++ [(v : Int)]) B' (k + 1) (by simp [hd]; omega) (by simp [hA])
+        (by simp only [List.length_cons] at hB; omega) (by simpa using hn)
+      simp only [List.append_assoc, List.cons_append, List.nil_append] at this
+      rw [this]
+      cases dibitsToPoints r with
+      | error e => rfl
+      | ok ps => simp
+
+/-- `dibits_to_points`, every array (shorter than 2^53 items): the model's `dibitsToPoints` (`KeyError` for a pair that is not
+a constellation point, `IndexError` for an odd length) -/
+theorem dibits_to_points_eq (d : List Int) (hd : d.length < 2 ^ 53) :
+    dibits_to_points d = ofR (List.map (fun x : Nat => (x : Int))) (dibitsToPoints d) := by
+  have h : dibits_to_points d = (PyArr.truncDiv (len d) 2 >>= fun n =>
+      forEach (range3p 0 (len d) 2) (PyArr.zeros n) (d2pBody d)) := by
+    unfold dibits_to_points d2pBody; rfl
+  rw [h, len_eq, truncDiv_len2 _ hd, ok_bind, range3p_idxs2]
+  have := d2p_loop d [] [] (PyArr.zeros ((d.length / 2 : Nat) : Int)) 0 rfl rfl (by simp [PyArr.zeros]; omega) (by simpa using hd)
+  simp only [List.nil_append] at this
+  rw [this]
+  cases dibitsToPoints d with
+  | error e => rfl
+  | ok ps => simp [ofR]
+
+
 end Dmr.Transl.Trellis
